@@ -2,7 +2,7 @@
    Termination: every model function is a structural recursion on the input list (accepted by the kernel's guard
    checker), so the models terminate on every input; what is proved below is the absence of leaked Python exceptions. *)
 From Coq Require Import ZArith List Bool.
-Require Import PyIR.Base.Result PyIR.Engine.Match PyIR.Engine.Parse PyIR.Engine.NoCrash PyIR.Proto.Descriptor
+Require Import PyIR.Base.Result PyIR.Engine.Match PyIR.Engine.Parse PyIR.Engine.NoCrash PyIR.Engine.ParseM PyIR.Engine.ParseMProps PyIR.Proto.Descriptor
                PyIR.Ctl.Dispatcher PyIR.Ctl.Instance PyIR.Ctl.NoCrash.
 Import ListNotations.
 Open Scope Z_scope.
@@ -11,6 +11,10 @@ Open Scope Z_scope.
    (pair tables, no middle timings) returns symbols or one of the library's IR errors *)
 Theorem C08_engine_never_leaks : forall tol li lo t code, is_pyerr (parseH tol li lo t code) = false.
 Proof. exact parseH_no_pyerr. Qed.
+
+(* ... and the same for the Manchester data loop and for the classification in front of both *)
+Theorem C08_engine_never_leaks_any_pair_table : forall tol li lo t code, is_pyerr (parseC tol li lo t code) = false.
+Proof. exact parseC_no_pyerr. Qed.
 
 (* one decoder instance (a class that does not override decode) in any state, any sequence of arbitrary inputs *)
 Theorem C08_decoder_never_leaks : forall D t tol frames s, Forall (fun r => is_pyerr r = false) (run_seq D t tol s frames).
@@ -42,6 +46,7 @@ Example C08_x10n_input_rejected :
 Proof. vm_compute. reflexivity. Qed.
 
 Print Assumptions C08_engine_never_leaks.
+Print Assumptions C08_engine_never_leaks_any_pair_table.
 Print Assumptions C08_decoder_never_leaks.
 Print Assumptions C08_dispatcher_never_raises.
 Print Assumptions C08_one_leak_goes_through.
